@@ -41,3 +41,35 @@ Proof.
   vm_compute. repeat split; reflexivity.
 Qed.
 Print Assumptions C18_refuted.
+
+(* The outcome itself can depend on the order.  A=5, F=7 unary covariant,
+   G=8 binary (contra, co), K=9 unary contravariant.
+   x ** K(y) [x << [F(y), A], x << [G(A, y), F(A)]] applied to F(A):
+   creation order resolves y and returns K(A); re-checking the second
+   constraint first returns K(y) with y only bounded below by A. *)
+Definition rH := mk_hier [(6,5)] [(7,[true]); (8,[false;true]); (9,[false])].
+Definition rsig := mkSchema 2 (SOp Function [SVar 0; SOp 9 [SVar 1]])
+  [SCElim (SVar 0) [SOp 7 [SVar 1]; SOp 5 []];
+   SCElim (SVar 0) [SOp 8 [SOp 5 []; SVar 1]; SOp 7 [SOp 5 []]]].
+Definition rprog := [CInst rsig; CInst (mkSchema 0 (SOp 7 [SOp 5 []]) []); CApply 0 1 true].
+Fixpoint deep (fuel : nat) (s : store) (t : tyv) : tyv :=
+  match fuel with
+  | 0 => t
+  | S f => match follow s t with
+           | V v => V v
+           | O o args => O o (map (deep f s) args)
+           end
+  end.
+Definition result_of (r : (option (err * nat)) * list tyv * store) : option tyv :=
+  let '(e, vals, s) := r in
+  match e with Some _ => None | None => Some (deep 50 s (last vals (V 0))) end.
+
+Theorem C18_refuted_result : exists H prog sc1 sc2 v,
+  result_of (run_cmds H 400 prog 0 [] (empty_store sc1)) = Some (O 9 [O 5 []]) /\
+  let r2 := run_cmds H 400 prog 0 [] (empty_store sc2) in
+  result_of r2 = Some (O 9 [V v]) /\
+  c_bound (cell_of (snd r2) v) = None /\ c_lower (cell_of (snd r2) v) = Some 5.
+Proof.
+  exists rH, rprog, [], [1]. eexists. vm_compute. repeat split; reflexivity.
+Qed.
+Print Assumptions C18_refuted_result.
